@@ -76,13 +76,17 @@ theorem Tab.get_set {α : Type} (t : Tab α) (k : Nat) (v : α) (x : Nat) :
 
 /-- Monitor state.  Per object `o`: `sch o` successful schedulings, `wr o` BatchWrites, `com o` BatchWrites
 that have been committed, `dn o` BatchWriteDones, `need o` how many Dones `StopBatchWriter` has to wait
-for; per producer `mark p` = `wr o` when its current `Enqueue(o)` was called. -/
+for (it grows with every accepted `Enqueue` return); per producer `mark p` = `wr o` when its current
+`Enqueue(o)` was called; per Stop caller `snap t` = `need` at the moment that call was invoked, which is what
+*that* call has to wait for. -/
 structure Mon where
   sch : Tab Nat := ⟨[], 0⟩
   wr : Tab Nat := ⟨[], 0⟩
   com : Tab Nat := ⟨[], 0⟩
   dn : Tab Nat := ⟨[], 0⟩
   need : Tab Nat := ⟨[], 0⟩
+  passed : Tab Bool := ⟨[], false⟩       -- per producer: its current Enqueue passed the running check
+  snap : Tab (Tab Nat) := ⟨[], ⟨[], 0⟩⟩  -- per Stop caller: `need` when its StopBatchWriter was invoked
   mark : Tab Nat := ⟨[], 0⟩
   lastW : Tab (Option Nat) := ⟨[], none⟩
   lastCom : Tab (Option Nat) := ⟨[], none⟩
@@ -94,14 +98,15 @@ def Mon.touch (m : Mon) (o : Nat) : List Nat := if m.objs.contains o then m.objs
 
 /-- One event.  Counters always advance; every failed check is appended to `errs`. -/
 def Mon.step (m : Mon) : Event → Mon
-  | .enqCall p o => { m with mark := m.mark.set p (m.wr o), objs := m.touch o }
-  | .hook _ => m
+  | .enqCall p o => { m with mark := m.mark.set p (m.wr o), passed := m.passed.set p false, objs := m.touch o }
+  | .hook p => { m with passed := m.passed.set p true }
   | .schedNew o => { m with sch := m.sch.set o (m.sch o + 1), objs := m.touch o }
   | .schedDup _ => m
   | .enqRet p o =>
-      -- an Enqueue that returned before Stop was invoked: a BatchWrite of `o` that started after the
-      -- call (the (mark+1)-th) has to be committed and done before Stop returns
-      { m with need := if m.stopCalled then m.need else m.need.set o (max (m.need o) (m.mark p + 1)) }
+      -- an Enqueue that was accepted (it passed the running check; the object was newly scheduled or was
+      -- scheduled already): a BatchWrite of `o` that started after the call (the (mark+1)-th) has to be
+      -- committed and done before any StopBatchWriter invoked from now on returns
+      { m with need := if m.passed p then m.need.set o (max (m.need o) (m.mark p + 1)) else m.need }
   | .reset _ => m
   | .write o v =>
       { m with wr := m.wr.set o (m.wr o + 1), lastW := m.lastW.set o (some v), objs := m.touch o,
@@ -111,9 +116,9 @@ def Mon.step (m : Mon) : Event → Mon
       { m with dn := m.dn.set o (m.dn o + 1), objs := m.touch o,
                errs := if m.dn o < m.com o then m.errs else m.errs ++ [.doneBeforeCommit] }
   | .flush => m
-  | .stopCall _ => { m with stopCalled := true }
-  | .stopRet _ =>
-      { m with errs := if m.objs.all (fun o => m.need o ≤ m.dn o) then m.errs else m.errs ++ [.stopReturnedEarly] }
+  | .stopCall t => { m with stopCalled := true, snap := m.snap.set t m.need }
+  | .stopRet t =>
+      { m with errs := if m.objs.all (fun o => (m.snap t) o ≤ m.dn o) then m.errs else m.errs ++ [.stopReturnedEarly] }
   | .blockedP _ => { m with errs := m.errs ++ [.blockedForever] }
   | .blockedS _ => { m with errs := m.errs ++ [.blockedForever] }
   | .storeHas o v => { m with errs := if m.lastCom o = some v then m.errs else m.errs ++ [.storeMismatch] }
